@@ -1683,9 +1683,10 @@ class Parameter(_ParameterBase):
                       old=_old, new=val, type=None)
 
         # Copy watchers here since they may be modified inplace during iteration
+        ran = []  # the dependent methods run for this assignment
         try:
             for watcher in sorted(watchers, key=lambda w: w.precedence):
-                obj.param._call_watcher(watcher, event)
+                obj.param._call_watcher(watcher, event, ran)
         finally:
             # Also when a watcher raised: what queued watchers have queued
             # so far is announced now, not at some later assignment
@@ -2945,7 +2946,7 @@ class Parameters:
             except Skip:
                 pass
 
-    def _call_watcher(self_, watcher, event):
+    def _call_watcher(self_, watcher, event, ran=None):
         """Invoke the given watcher appropriately given an Event object."""
         if self_._TRIGGER:
             pass
@@ -2959,7 +2960,7 @@ class Parameters:
         else:
             event = self_._update_event_type(watcher, event, self_._TRIGGER)
             with _batch_call_watchers(self_.self_or_cls, enable=watcher.queued, run=False):
-                self_._execute_watcher(watcher, (event,))
+                self_._execute_watcher(watcher, (event,), ran)
 
     def _batch_call_watchers(self_):
         """
